@@ -1085,10 +1085,13 @@ structure Api (V : Type) where
   servers : List Server
   security : List (String × SecA)
 
+/-- what a v2 operation says -/
+def opA2 {V : Type} (path : String) (o : Op2 V) : OpA V :=
+  { path := path, method := o.method, opId := o.opId, inputs := o.params.map inputA2,
+    responses := o.responses.map (fun kr => (kr.1, respA2 kr.2)) }
+
 def api2 {V : Type} (d : Doc2 V) : Api V :=
-  { ops := d.paths.flatMap (fun p => p.ops.map (fun o =>
-      { path := p.path, method := o.method, opId := o.opId, inputs := o.params.map inputA2,
-        responses := o.responses.map (fun (k, r) => (k, respA2 r)) })),
+  { ops := d.paths.flatMap (fun p => p.ops.map (opA2 p.path)),
     pathParams := (d.paths.filter (fun p => !p.params.isEmpty)).map (fun p => (p.path, p.params.map inputA2)),
     shared := d.params.map (fun (k, p) => (k, inputA2 p)),
     sharedResponses := d.responses.map (fun (k, r) => (k, respA2 r)),
@@ -1193,5 +1196,33 @@ def docSimple {V : Type} (d : Doc2 V) : Bool :=
   d.params.isEmpty && d.paths.all pathSimple && d.responses.all (fun kr => respOK3 kr.2) &&
   nodupKeys d.defs && d.defs.all (fun ks => !addlImpure ks.2 && v2Refs ks.2) &&
   d.secs.all (fun ks => secInFragment ks.2) && locOK d.loc
+
+/-- fragment of the round-trip theorems (outside every exclusion), component by component -/
+def paramSimpleBack {V : Type} : PRef2 V → Bool
+  | .ref _ _ => false
+  | .val p => p.loc != "body" && p.loc != "formData" && itemsOKBack p.items && noBinary2 (paramSchema2 p)
+
+def headerSimpleBack {V : Type} (h : String × Param2 V) : Bool :=
+  itemsOKBack h.2.items && noBinary2 (paramSchema2 h.2)
+
+def respSimpleBack {V : Type} (produces : List String) : RRef2 V → Bool
+  | .ref k _ => k.isV2
+  | .val x => x.headers.all headerSimpleBack && schemaOKBack x.schema && x.schema.all noBinary2 &&
+              !(x.schema.isSome && !(effProduces produces).contains "application/json")
+
+def opSimpleBack {V : Type} (o : Op2 V) : Bool :=
+  o.params.all paramSimpleBack && o.responses.all (fun kr => respSimpleBack o.produces kr.2)
+
+def pathSimpleBack {V : Type} (p : Path2 V) : Bool := p.params.all paramSimpleBack && p.ops.all opSimpleBack
+
+def defSimpleBack {V : Type} (s : Sch V) : Bool :=
+  noBinary2 s && !hasDisc s && !addlRef s && v2Refs s && !addlImpure s &&
+  (match s with | .ref _ _ => true | .node h _ => h.fmt != some "binary")
+
+def docSimpleBack {V : Type} (d : Doc2 V) : Bool :=
+  docSimple d && d.params.isEmpty && d.paths.all pathSimpleBack && d.responses.all (fun kr => respSimpleBack d.produces kr.2) &&
+  nodupKeys d.defs && d.defs.all (fun ks => defSimpleBack ks.2) &&
+  d.secs.all (fun ks => secInFragment ks.2) &&
+  (d.loc.host != "" && d.loc.schemes.all (fun x => x == "http" || x == "https"))
 
 end KinModel.Conv
